@@ -41,6 +41,15 @@ struct SchedulePlacedWrapper;
 DISPENSO_DLL_ACCESS void pushThreadTaskSet(TaskSetBase* tasks);
 DISPENSO_DLL_ACCESS void popThreadTaskSet();
 
+// Called for a task functor that a canceled task set skips.  Ordinary functors release what they
+// own in their destructor, but a OnceFunction must be told explicitly (it is trivially
+// destructible), otherwise the callable it owns and everything that callable captured is leaked.
+template <typename F>
+inline void discardSkippedTask(F& /*f*/) {}
+inline void discardSkippedTask(OnceFunction& f) {
+  f.cleanupNotRun();
+}
+
 } // namespace detail
 
 DISPENSO_DLL_ACCESS TaskSetBase* parentTaskSet();
@@ -142,6 +151,8 @@ class TaskSetBase {
 #else
         f();
 #endif // __cpp_exceptions
+      } else {
+        detail::discardSkippedTask(f);
       }
       if (pushed) {
         detail::popThreadTaskSet();
@@ -172,6 +183,8 @@ class TaskSetBase {
 #else
         f();
 #endif // __cpp_exceptions
+      } else {
+        detail::discardSkippedTask(f);
       }
       if (pushed) {
         detail::popThreadTaskSet();
